@@ -103,7 +103,8 @@ def _one(R, rng, i):
     mmap = rng.random() < 0.35
     in_minmax = None
     if layout != "rgb" and rng.random() < 0.2:
-        in_minmax = rng.choice([(0.0, 255.0), (None, 1000.0), (-100.0, 100.0), (10.0, 20.0)])
+        in_minmax = rng.choice([(0.0, 255.0), (None, 1000.0), (-100.0, 100.0), (10.0, 20.0), (-100.0, 0.0),
+                                (-2.0, 0.0)])
     target = rng.choice([None, None] + NG)
     if in_minmax and target == "uint64":
         target = "uint32"      # float -> uint64 at the top of the range is the C11 finding, kept out of C01
@@ -154,6 +155,15 @@ def _one(R, rng, i):
         R.count("generate-scales-info:failed(C08)")
         return
     info = json.load(open(os.path.join(out, "info")))
+    if enc == "compressed_segmentation" and rng.random() < 0.6:
+        # non-cubic block sizes (any positive block size is valid in the format)
+        bs = rng.choice([[8, 8, 4], [4, 8, 2], [2, 4, 8], [8, 2, 1], [1, 4, 2], [16, 8, 4], [3, 5, 2]])
+        for s in info["scales"]:
+            s["compressed_segmentation_block_size"] = bs
+        with open(os.path.join(out, "info"), "w") as f:
+            json.dump(info, f)
+        case["cseg_block_size"] = bs
+        R.count("cseg-block:non-cubic")
     case["encoding"] = enc
     case["data_type"] = info["data_type"]
     case["chunk_size"] = info["scales"][0]["chunk_sizes"][0]
